@@ -404,8 +404,108 @@ def oracle_duration(C, ref, us, fno):
     return bad
 
 
+
+# --------------------------------------------------------------------------------------------------------------------
+# Source-translation tie (second, tighter tie for the conversion functions themselves; NON-ALARMING on its own).
+#   harness/gen_c15_src.py (an extension of harness/gen_c16_src.py) translates the CURRENT source text of datetime_default_gen /
+#   DATETIME_ZERO / _Timestamp.from_datetime / to_datetime / timestamp_to_json / _Duration.from_timedelta / to_timedelta /
+#   delta_to_json into coq/gen/C15Src.v (three parts: "convert", "dur_json", "ts_json"); Proofs/C15Src.v / C15SrcDurJson.v /
+#   C15SrcTsJson.v prove the translation equal to the hand-written model (Model/Time.v) and restate the headline theorems of
+#   Properties/C15.v over the translated source; Properties/C15Src.v / C15SrcDurJson.v / C15SrcTsJson.v state it.  These files are
+#   NOT among the targets of the main build: a behaviour-preserving rewrite of the Python functions may make the translator
+#   reject or the proof scripts fail while C15 still holds.  So this stage only RECORDS whether the tie held (evidence:
+#   input_distribution "source_tie:*", coverage.source_translation_tie, an assumptions line, the theorems + Print Assumptions
+#   verdicts when it held) and NEVER calls ctx.fail: when it does not hold, the sampled correspondence and the oracles below
+#   decide, as before.
+# --------------------------------------------------------------------------------------------------------------------
+SRC_TIE_PARTS = [
+    ("convert", "C15Src.v", "datetime_default_gen / DATETIME_ZERO, _Timestamp.from_datetime / to_datetime, _Duration.from_timedelta / to_timedelta"),
+    ("dur_json", "C15SrcDurJson.v", "_Duration.delta_to_json"),
+    ("ts_json", "C15SrcTsJson.v", "_Timestamp.timestamp_to_json"),
+]
+
+
+class _AuditSink:
+    """lib.audit stores its result in `.proof` of whatever it is given; keeps the main ctx.proof untouched"""
+    proof = None
+
+
+def source_tie_stage(ctx):
+    import os
+    import re
+
+    report = {"translator": None, "parts": {}}
+    ctx.cov["source_translation_tie"] = report
+    lines = []
+    gen = os.path.join(lib.VERIF, "harness", "gen_c15_src.py")
+    try:
+        # (a) the translator's verdict on the current source (dry run: writes nothing; setup.sh below regenerates gen/C15Src.v
+        #     under the build lock)
+        rc, out = lib.run([lib.PY, gen, "--dry-run"], timeout=300, cwd=lib.VERIF)
+        # the translator's own regression snippets (constructs outside the subset must be rejected): a translator that
+        # fails them is not trusted to tie anything
+        src, sout = lib.run([lib.PY, gen, "--selftest"], timeout=300, cwd=lib.VERIF)
+        sl = [l for l in sout.strip().splitlines() if "WARNING conda" not in l]
+        report["translator_selftest"] = sl[-1][:200] if sl else "no output"
+        ctx.count("source_tie:translator_selftest_ok", 1 if src == 0 else 0)
+        verdicts = {}
+        for l in ([] if src != 0 else out.splitlines()):
+            m = re.match(r"C15SRC-TRANSLATION-(OK|REJECTED): (\w+)(?:: (.*))?$", l)
+            if m:
+                verdicts[m.group(2)] = (m.group(1) == "OK", m.group(3) or "")
+        report["translator"] = {k: {"accepted": ok, "message": why or "accepted"} for k, (ok, why) in verdicts.items()}
+        for key, prop_file, what in SRC_TIE_PARTS:
+            part = {"what": what, "held": False, "reason": None, "theorems": []}
+            report["parts"][key] = part
+            ok, why = verdicts.get(key, (False, "translator self-test failed" if src != 0 else "no verdict from the translator: " + out.strip()[-300:]))
+            ctx.count(f"source_tie:{key}_translated", 1 if ok else 0)
+            if not ok:
+                part["reason"] = "translator rejected the current source (construct outside its subset): " + why
+            else:
+                brc, bout = lib.run([os.path.join(lib.VERIF, "setup.sh"), "Properties/" + prop_file + "o"], timeout=1500, cwd=lib.VERIF)
+                if brc != 0:
+                    err = re.findall(r'File "[^"]*", line \d+[^\n]*\n(?:[^\n]*\n){0,6}', bout)
+                    part["reason"] = ("gen/C15Src.v or the proofs do not compile against the current source "
+                                      "(the proof scripts are tied to the shape of the code): " + (err[0] if err else bout[-600:]).strip()[:900])
+                else:
+                    sink = _AuditSink()
+                    pr = lib.audit(sink, prop_file)
+                    part["theorems"] = pr["theorems"]
+                    if pr["problems"] or pr["discharged"] != pr["obligations"] or not pr["obligations"]:
+                        part["reason"] = "audit of Properties/%s: %s" % (prop_file, "; ".join(pr["problems"])[:600] or "no theorem")
+                    else:
+                        part["held"] = True
+                        part["print_assumptions"] = "all %d theorems closed under the global context" % pr["obligations"]
+                        # the audit of the main file must have succeeded for the merged counts to mean anything
+                        if ctx.proof and not ctx.proof.get("problems") and ctx.build_ok:
+                            ctx.proof["obligations"] += pr["obligations"]
+                            ctx.proof["discharged"] += pr["discharged"]
+                            ctx.proof["theorems"] = list(ctx.proof["theorems"]) + pr["theorems"]
+                            ctx.proof["verdicts"] = list(ctx.proof["verdicts"]) + pr["verdicts"]
+            ctx.count(f"source_tie:{key}_held", 1 if part["held"] else 0)
+            lines.append(f"{key} ({what}): " + ("HELD, %d theorems of Properties/%s closed" % (len(part["theorems"]), prop_file) if part["held"]
+                                                 else "DID NOT HOLD on this tree - " + str(part["reason"])[:400]))
+    except Exception as e:  # noqa  - this stage must never decide the check
+        report["stage_error"] = repr(e)[:500]
+        lines.append("stage could not complete: " + repr(e)[:300])
+        for key, _, _ in SRC_TIE_PARTS:
+            if key not in report["parts"] or not report["parts"][key].get("held"):
+                ctx.dist.setdefault(f"source_tie:{key}_held", 0)
+    held_all = all(report["parts"].get(k, {}).get("held") for k, _, _ in SRC_TIE_PARTS)
+    ctx.src_tie_line = ("source-translation tie (harness/gen_c15_src.py -> coq/gen/C15Src.v, proved equal to the model in Properties/C15Src.v, "
+                        "C15SrcDurJson.v, C15SrcTsJson.v; a datetime parameter is an AWARE datetime (wall, offset), a timedelta its microseconds, "
+                        "`self` the pair (seconds, nanos) of ints, the float arithmetic of timestamp_to_json integer-valued and exact below 2^53, "
+                        "isoformat() of the whole-second UTC wall clock = Model/Json.v cal_text): "
+                        + "; ".join(lines)
+                        + (". Where it did not hold the check FELL BACK to the sampled correspondence and the oracles (no verdict is drawn "
+                           "from a failed translation or a failed equality proof)." if not held_all else ""))
+    ctx.notes.append(ctx.src_tie_line)
+    return report
+
+
 # ---------------------------------------------------------------------------------------- run
 def run(ctx):
+    source_tie_stage(ctx)
     rng = ctx.rng
     C = Classes()
     bp = C.bp
@@ -718,12 +818,24 @@ def finish(ctx):
         firsts.add(k)
         out.append(f)
     ctx.failures = out
+    tie = ctx.cov.get("source_translation_tie") or {}
+    held = [k for k, p in (tie.get("parts") or {}).items() if p.get("held")]
+    assumptions = list(ASSUMPTIONS) + [getattr(ctx, "src_tie_line", "source-translation tie: stage not run")]
+    trusted = list(TRUSTED)
+    if held:
+        trusted.append("source-translation tie (held for: " + ", ".join(held) + "): the translator harness/gen_c15_src.py on top of harness/gen_c16_src.py "
+                       "(Python `ast`, fail-closed, accepted subsets documented in their headers) and the semantics of the Python operations they target, "
+                       "coq/Model/C16SrcLib.v + coq/Model/C15SrcLib.v (each datetime / timedelta operation = the model's own primitive: dt_sub, dt_add, "
+                       "timedelta_new, td_days / td_seconds / td_microseconds; astimezone(utc) with its OverflowError; integer-valued floats as Z; "
+                       "f\"{i}\" = dec, f\"{i:0kd}\" = fmt0, 'd' on a float = ValueError; isoformat() = Model/Json.v cal_text; exceptions by class only); "
+                       "for the parts that held the hand-written model functions are no longer trusted beyond that: they are PROVED equal to the translation")
     return lib.finish(
         ctx, "proof",
         "Coq theorems over a Gallina mirror of the Timestamp/Duration conversions (integer model of the repaired code, exact binary64 "
         "model of the pinned code for the refutations) + executable correspondence (vm_compute) with the implementation and, for the "
-        "specification, with google.protobuf",
-        ASSUMPTIONS, TRUSTED, RULE,
+        "specification, with google.protobuf"
+        + ("; the conversion functions additionally tied by mechanical source translation proved equal to the model" if held else ""),
+        assumptions, trusted, RULE,
         extra_cov={"exhaustive": False,
                    "explanation": "theorems are unbounded (all of Z, hence the whole protobuf range); the correspondence is sampled "
                                   "(boundaries + random) and the calendar part of the JSON forms is an oracle"})
